@@ -4,10 +4,10 @@ PROPS = {
         "modules": ["Hertz.Props.C17"],
         "rule": "Exhaustive strings of <=3 (quick) / <=5 (thorough) tokens over a 16-token hostile alphabet "
                 "(a % + & = ; # SP %41 %2 %zz NUL 0xff %2B / ?) through quote/decode/parse/fix/net-url ops; "
-                "all one- and (sampled) two-entry argument lists over short hostile strings; random longer inputs.",
+                "all one- and (sampled) two-entry argument lists over short hostile strings; random longer inputs. URIs: every string of <=3 tokens over {a / ? # : @ // %41 % SP NUL http . ..} parsed with and without Host; URIs assembled through the setters (hostile schemes, hosts, paths, fragments, query lists) through FullURI -> Parse -> FullURI; cookie strings from an attribute vocabulary with mutations; cookies built through the setters.",
         "exhaustive_note": "token strings up to the stated length are enumerated completely; the rest is sampled",
         "level_text": "Round-trip theorems (decode . quote = id, parse . serialise = id on argument lists) proved in Lean for all byte strings over the escape tables regenerated from the Go source; model held to the code by differential runs incl. exhaustive short hostile strings; agreement with net/url checked on every accepted string.",
-        "level_note": "Trusted: Lean kernel, translator for the 256-byte tables, harness/driver. URI and cookie round-trips: see level_text of later rounds.",
+        "level_note": "Trusted: Lean kernel, translator for the 256-byte tables, harness/driver. URI and cookie round trips are modelled (parse, FullURI, cookie scanner and serialiser), compared with the code and checked per case on the implementation's output; their Lean theorems are open. Cookie expiry uses Go's time formatting (compared on the Go side). Known finding: control byte in the fragment.",
         "assumptions": ["net/url is the reference for args_agree_std", "time formatting is Go's (cookie expiry)"],
     },
 }
